@@ -23,6 +23,7 @@ var (
 	flagTags     = flag.String("tags", "", "build tags")
 	flagGen      = flag.String("gen", "", "print guard-table rows (Go syntax) for functions whose canonical name contains this string")
 	flagDescribe = flag.Bool("describe", false, "print the registered properties (JSON) for MANIFEST generation")
+	flagInv      = flag.String("inventory", "", "print the determinism inventory of a named region (CCR)")
 	flagAlt      = flag.Bool("altconfig", false, "internal: run the property under the build configuration given by GOOS/GOARCH/-tags and print ALTCONFIG lines")
 )
 
@@ -39,6 +40,20 @@ func main() {
 	}
 	if *flagReplay != "" {
 		os.Exit(replay(*flagReplay))
+	}
+	if *flagInv != "" {
+		p, err := Load(LoadConfig{RepoDir: *flagRepo, Tags: *flagTags})
+		if err != nil {
+			fmt.Fprintln(os.Stderr, err)
+			os.Exit(2)
+		}
+		r := &Run{P: p, Funcs: map[string]bool{}, Regions: map[string]int{}}
+		reg := r.Region(*flagInv, regionEntries[*flagInv], false)
+		fmt.Println("region", *flagInv, "functions:", r.Regions[*flagInv])
+		for _, h := range r.determinismInventory(reg) {
+			fmt.Printf("%q: %q, // %s:%d\n", h.Fn+"|"+h.What, h.Sig, h.File, h.Line)
+		}
+		return
 	}
 	if *flagCensus != "" || *flagList || *flagGen != "" {
 		p, err := Load(LoadConfig{RepoDir: *flagRepo, Tags: *flagTags})
